@@ -96,17 +96,17 @@ class Tokenizer:
             tok = next(self._tokengen)
             if tok.type == Token.OP and tok.string[-1] in "([{":  # push paren level
                 paren_level.append(tok.string[-1])
+            if tok.type == Token.ENDMARKER:
+                # unterminated macro call: hand the end of input back to the parser
+                self._stack.append(tok)
+                self._call_macro = False
+                break
             if paren_level:
                 if (tok.type == Token.OP) and (opener := self._end_parens.get(tok.string)):
                     if paren_level[-1] == opener:
                         paren_level.pop()
                     else:
                         raise self._syntax_error(f"Unmatched closing paren {tok.string} at {tok.start}", tok)
-            elif tok.type == Token.ENDMARKER:
-                # unterminated macro call: hand the end of input back to the parser
-                self._stack.append(tok)
-                self._call_macro = False
-                break
             else:
                 if tok.is_exact_type(")"):
                     self._stack.append(tok)
